@@ -578,6 +578,8 @@ def random_idx_ops(rng, nrec, mode):
 
 
 def run(ctx):
+    from props import cli_proc
+    cli_proc.stream(ctx, ['C15'])
     rng = ctx.rng
     thorough = ctx.tier == 'thorough'
     try:
@@ -710,6 +712,9 @@ def decoder_case(case):
 
 
 def replay_case(ctx, case):
+    if isinstance(case, dict) and case.get('kind') == 'cli-process':
+        from props import cli_proc
+        return cli_proc.replay(case)
     if case.get('decoder'):
         return decoder_case(case)
     try:
@@ -729,6 +734,8 @@ def replay_case(ctx, case):
 
 
 def shrink(ctx, case):
+    if isinstance(case, dict) and case.get('kind') == 'cli-process':
+        return case
     if 'tree' not in case or case.get('algo') == 2:    # codec-2 cases depend on the exact error pattern
         return case
     if len(case['tree']) > 60:                        # the large-index case: its size IS the point; shrinking would rebuild hundreds of trees
@@ -762,6 +769,8 @@ def shrink(ctx, case):
 
 
 def classify(case, detail):
+    if isinstance(case, dict) and case.get('kind') == 'cli-process':
+        return None
     """C15-codec2-decoder-incomplete: codec 2 only, and every complaint is a marker whose record
     (<= 9 wrong bytes) the third-party decoder refused, or the resulting difference from the pristine file."""
     if case.get('decoder'):
